@@ -81,7 +81,8 @@ func safePool() []interface{} {
 		arr(obj("k", arr(obj("j", arr(tm(1700000000, 2, -3600, "W"), nil, i64(1)))))), // depth 5
 		obj("k", arr(arr(), obj(), "", nil)),
 		// integers beyond 2^53 which float64 holds exactly: comparison and index key agree on them
-		i64(1 << 60), i64(-(1 << 60)), u64(1 << 63),
+		i64(1 << 60), i64(-(1 << 60)), u64(1 << 63), i64(1 << 62), i64(-(1 << 62)), // the last two are 2^63 apart
+		arr(arr(tm(946684800, 11, 3600, "CET"), tm(946684800, 12, 0, "UTC")), arr(tm(1700000000, 0, -3600, "W"))), // times in arrays in arrays
 		// zone offsets beyond +-9h, and a negative one that is not a whole number of minutes (a local mean time)
 		tm(946684800, 3, 34200, "ACST"), tm(946684800, 4, -36000, "HST"), tm(946684800, 8, 50400, "LINT"), tm(946684800, 9, -17762, "LMT"), tm(1000000000, 0, -59, "odd-"),
 		wideObj(16), wideArr(17),
@@ -581,6 +582,11 @@ func (g *Gen) query(coll string, c *model.Coll, pCrit, pSort, pWindow float64) *
 			for i := 0; i < n; i++ {
 				q.Sort = append(q.Sort, model.SortOpt{Field: g.pickPathFor(c, 0.4), Dir: dirs[g.R.Intn(len(dirs))]})
 			}
+			if n >= 2 && g.R.Chance(0.3) {
+				// (field, _id): a total order, with the direction of _id chosen independently
+				q.Sort = q.Sort[:2]
+				q.Sort[1] = model.SortOpt{Field: "_id", Dir: dirs[g.R.Intn(len(dirs))]}
+			}
 		}
 	}
 	if g.R.Chance(pWindow) {
@@ -884,6 +890,11 @@ func (g *Gen) make(k string, m *model.DB) Op {
 				}
 			}
 		}
+		if k == "UpdateFunc" && !cfg.Determ && g.R.Chance(0.08) {
+			// an update function that returns nil
+			q.HasSkip, q.HasLimit = false, false
+			return Op{K: k, Q: q, UpdStyle: "nil"}
+		}
 		op := Op{K: k, Q: q, Upd: g.updMapFor(mc, true), UpdStyle: updStyles[g.R.Intn(len(updStyles))]}
 		if mc != nil && len(mc.Indexes) > 0 && g.R.Chance(0.3) {
 			// right behind it, a bulk operation which walks an index the first one had
@@ -1098,6 +1109,10 @@ func (g *Gen) invalid(m *model.DB, coll string, mc *model.Coll) Op {
 		upd := map[string]val.V{"_expiresAt": val.Wrap("soon"), "tag": val.Wrap(g.nextTag())}
 		if g.R.Bool() {
 			upd = map[string]val.V{"_id": val.Wrap(malformedIDs[g.R.Intn(len(malformedIDs))]), "tag": val.Wrap(g.nextTag())}
+		}
+		if g.R.Chance(0.3) {
+			// a dotted path through _id turns the id into an object
+			upd = map[string]val.V{[]string{"_id.x", "_id.a.b", "_expiresAt.x"}[g.R.Intn(3)]: val.Wrap(g.value()), "tag": val.Wrap(g.nextTag())}
 		}
 		if g.R.Bool() {
 			return Op{K: "UpdateById", Coll: coll, ID: g.pickID(mc, 0.95), Upd: upd, UpdStyle: updStyles[g.R.Intn(len(updStyles))]}
